@@ -271,7 +271,8 @@ def r03e(model: Model, rr: RuleResult):
     dels = [st for st in walk_body(fi) if isinstance(st, ast.Delete)]
     if len(dels) != 1:
         raise AnalysisError("_glyf_ufo: flattening `del ufo[...]` not found")
-    facts = [norm(e) for e, pol in guard_facts(cfg, cfg.node_for(dels[0])) if pol]
+    from ..guards import canon_facts as _cf3
+    facts = [t_ for t_, pol in _cf3(cfg, cfg.node_for(dels[0])) if pol]
     if "len(parent_glyph.components) == 1" in facts and any(f.startswith("glyph_uses[") and f.endswith("== 1") for f in facts):
         rr.ok("flattening requires exactly one component that is used exactly once in the whole font")
     else:
@@ -605,7 +606,7 @@ def r03g(model: Model, rr: RuleResult):
     at = cfg.node_for(ctor[0])
     inside = {cfg.node_for(st) for st in ast.walk(lp) if isinstance(st, ast.stmt) and st is not lp}
     # every definition that can reach the child's transform is made in this iteration, after the dequeue
-    pops = [st for st in lp.body if isinstance(st, ast.Assign) and isinstance(st.value, ast.Call) and callee_tail(st.value) == "pop"]
+    pops = [st for st in lp.body if isinstance(st, ast.Assign) and isinstance(st.value, ast.Call) and callee_tail(st.value) in ("pop", "popleft")]
     if not pops:
         raise AnalysisError("Paint.breadth_first: dequeue not found")
     pop_n = cfg.node_for(pops[0])
